@@ -559,6 +559,28 @@ def resolve_here(expr, depth=0, _skip=frozenset()):
     while getattr(anchor, '_parent', None) is not None and not isinstance(anchor, ast.stmt):
         anchor = anchor._parent
 
+    # only temporaries defined inside the innermost loop around the expression are resolved (when there is such a loop):
+    # names set up before the loop (parameters rebound once, configuration) keep their names
+    scope_loop = None
+    q = anchor
+    while getattr(q, '_parent', None) is not None:
+        q = q._parent
+        if isinstance(q, (ast.For, ast.While)):
+            scope_loop = q
+            break
+        if isinstance(q, (ast.FunctionDef, ast.AsyncFunctionDef, ast.Lambda)):
+            break
+
+    def in_scope(v):
+        if scope_loop is None:
+            return True
+        x = v
+        while getattr(x, '_parent', None) is not None:
+            x = x._parent
+            if x is scope_loop:
+                return True
+        return False
+
     def res(node, anchor_stmt, skip, d):
         if d > 6:
             return copy.deepcopy(node)
@@ -567,6 +589,8 @@ def resolve_here(expr, depth=0, _skip=frozenset()):
             def visit_Name(self, n):
                 if isinstance(n.ctx, ast.Load) and n.id not in skip:
                     v = reaching_value(anchor_stmt, n.id)
+                    if v is not None and not in_scope(v):
+                        v = None
                     if v is not None and not isinstance(v, (ast.Yield, ast.YieldFrom, ast.Await)):
                         st = v
                         while getattr(st, '_parent', None) is not None and not isinstance(st, ast.stmt):
